@@ -13,7 +13,10 @@ RULE = ("case = one engine (recording query-cache decorator) x %d batches of 2-5
         "variables / worlds / contexts / operation names, different documents, requests with injected failures (incl. the "
         "same error *instance* raised in several requests), Boolean-flipped twins of one request, syntactically broken "
         "documents and rule-violating rewrites of the base document (C07's catalogue, same fragment / operation names); "
-        "35%% of the engines use a documentation-style error coercer that writes into the error it is handed. Each request "
+        "35%% of the engines use a documentation-style error coercer that writes into the error it is handed; 30%% of the "
+        "schemas carry a pass-through SCHEMA directive that REJECTS some requests; 15%% are @nonIntrospectable and asked "
+        "introspection fields. Solo answers are anchored to the reference executor (data, C02 error accounting) so that "
+        "process-wide state, which bends solo / concurrent / fresh answers alike, still shows. Each request "
         "is first answered alone, then all of the batch are started together under one controlled scheduler that "
         "interleaves their suspension points ACROSS requests (exhaustive DFS over cross-request completion orders up to "
         "a cap, then LIFO+random), then alone again, and finally on a freshly built engine. Oracle: every concurrent, "
